@@ -806,6 +806,48 @@ def self_aliases_inlined(node):
     return new
 
 
+def literal_loops_unrolled(node):
+    """a copy of `node` in which a loop over a short literal tuple / list (`for idx, tr in ((x_low, xt_low), (x_high, xt_high)): BODY`) is written out: BODY once per element
+    with the loop variables replaced by the element (components) - when BODY neither assigns the loop variables nor leaves the loop with break / continue"""
+    from . import norm as N_
+    new = N_.clone(node)
+
+    def unroll(stmts):
+        out = []
+        for st in stmts:
+            for f_ in ('body', 'orelse', 'finalbody'):
+                b_ = getattr(st, f_, None)
+                if isinstance(b_, list) and not isinstance(st, ast.ClassDef):
+                    setattr(st, f_, unroll(b_))
+            done = False
+            if isinstance(st, ast.For) and isinstance(st.iter, (ast.Tuple, ast.List)) and 0 < len(st.iter.elts) <= 8 and not st.orelse:
+                tg = st.target
+                names = [tg.id] if isinstance(tg, ast.Name) else [e.id for e in tg.elts] if isinstance(tg, ast.Tuple) and all(isinstance(e, ast.Name) for e in tg.elts) else None
+                leaves = any(isinstance(x, (ast.Break, ast.Continue)) for b in st.body for x in ast.walk(b))
+                stores = names is not None and any(isinstance(x, ast.Name) and x.id in names and isinstance(x.ctx, (ast.Store, ast.Del)) for b in st.body for x in ast.walk(b))
+                shapes_ok = names is not None and all((isinstance(tg, ast.Name)) or (isinstance(e, (ast.Tuple, ast.List)) and len(e.elts) == len(names)) for e in st.iter.elts)
+                if names is not None and not leaves and not stores and shapes_ok:
+                    for e in st.iter.elts:
+                        mp = {names[0]: e} if isinstance(tg, ast.Name) else dict(zip(names, e.elts))
+
+                        class R(ast.NodeTransformer):
+                            def visit_Name(self, n, mp=mp):
+                                if isinstance(n.ctx, ast.Load) and n.id in mp:
+                                    return ast.copy_location(N_.clone(mp[n.id]), n)
+                                return n
+                        for b in st.body:
+                            out.append(R().visit(N_.clone(b)))
+                    done = True
+            if not done:
+                out.append(st)
+        return out
+    if isinstance(new, (ast.FunctionDef, ast.ClassDef, ast.Module)):
+        new.body = unroll(new.body)
+    ast.fix_missing_locations(new)
+    set_parents(new)
+    return new
+
+
 def single_precision_declarations(tree):
     """[(name, type text, node)] of the variables, attributes and parameters of a lowered Cython tree that are declared with the C type `float` (32 bit) - in Cython, unlike in
     Python, `float` is single precision"""
